@@ -15,7 +15,8 @@ PROPERTY = "C10"
 LEVEL = "exploration"
 RULE = ("two-run monitor: the same generated election (three estimators, features and fixed effects on, centring on, "
         "outlier models on and off) is run twice, the second time with different counts for exactly one victim unit "
-        "(a nonreporting unit kept below the threshold, a blocklisted unit, a zero-baseline unit, an unexpected unit); "
+        "(a nonreporting unit kept below the threshold, a unit blocklisted by id or through its state, a zero-baseline "
+        "unit, an unexpected unit); "
         "all unit rows except the victim's and all group rows not containing it must be bit-identical, and so must the "
         "SEQUENCE of input digests (sha1 of x, y, weights, taus) of every QuantileRegressionSolver.fit / "
         "OLSRegressionSolver.fit call. Historical clause: HistoricalModelClient.get_historical_evaluation is run from "
@@ -31,7 +32,7 @@ BUDGET = {"quick": 150, "thorough": 1500}
 MIN_NONTRIVIAL = {"quick": 15, "thorough": 40}
 N = {"quick": 150, "thorough": 4000}
 N_HIST = {"quick": 12, "thorough": 200}
-KINDS = ["nonreporting", "blocklisted", "zero_baseline", "unexpected"]
+KINDS = ["nonreporting", "blocklisted", "zero_baseline", "unexpected", "state_blocklisted"]
 
 
 def cases(tier, seed):
@@ -76,11 +77,13 @@ def run_case(spec, inputs=None):
 def build(spec):
     i = spec["i"]
     rng = gen.rng_for(spec["seed"], PROPERTY, i, salt=2)
-    kind = KINDS[i % 4]
-    est = ["nonparametric", "gaussian", "bootstrap"][(i // 4) % 3]
+    kind = KINDS[i % 5]
+    est = ["nonparametric", "gaussian", "bootstrap"][(i // 5) % 3]
     o = dict(estimator=est, el_n_units=int(rng.integers(50, 140)), el_n_zero_baseline=2, feed_n_unexpected=2,
              feed_frac_reporting=0.6, feed_p_partial=0.8, must_aggregates=["postal_code", "unit", "county_fips"],
              feed_unexpected_kinds=["known_county", "unknown_county"], B=10)
+    if kind == "state_blocklisted":
+        o["el_n_states"] = int(rng.integers(2, 5))
     el, feed, status, call = cases_mod.build(spec["seed"], PROPERTY, i, o)
     mp = call["model_parameters"]
     if est != "bootstrap" and not call["features"]:
@@ -97,6 +100,8 @@ def build(spec):
                 and f not in mp.get("unit_blocklist", [])]
     elif kind == "blocklisted":
         cand = [f for f, s in status.items() if s in ("full", "partial") and f in base.index]
+    elif kind == "state_blocklisted":
+        cand = [f for f, s in status.items() if s == "full" and f in base.index]
     elif kind == "zero_baseline":
         cand = [f for f, s in status.items() if f in base.index and base.loc[f, "baseline_turnout"] == 0
                 and s != "missing"]
@@ -106,6 +111,8 @@ def build(spec):
         victim = cand[int(rng.integers(0, len(cand)))]
         if kind == "blocklisted":
             mp["unit_blocklist"] = list(mp.get("unit_blocklist", [])) + [victim]
+        if kind == "state_blocklisted":
+            mp["postal_code_blocklist"] = [str(base.loc[victim, "postal_code"])]
     feed2 = feed.copy(deep=True)
     if victim is not None:
         j = feed2.index[feed2.geographic_unit_fips == victim][0]
